@@ -144,13 +144,11 @@ def readGrammar (raw : RawGrammar) : Except ErrCode Grammar := do
   let (s, e) := s.addTerm TERM_ERROR_NAME (-2)
   let s := { s with errT := e }
   let s ← readRules raw.rules s
-  let start ← match s.startN with
-    | none => throw 8
-    | some st => pure st
-  let hasErrStart := s.rules.any fun r => r.lhs == start && r.rhs.head? == some (.t s.errT)
-  let s := if hasErrStart then s else
-    { s with rules := s.rules ++ [{ lhs := s.axiomN, rhs := [.t s.errT, .t s.eofT], transLen := 0,
-                                    order := [none, none] }] }
+  if s.startN.isNone then throw 8
+  -- the implicit rule `$S : error $eof` (total loss of the input) is always the last rule
+  let errRule : Rule := { lhs := s.axiomN, rhs := [.t s.errT, .t s.eofT], transLen := 0,
+                          order := [none, none] }
+  let s := { s with rules := s.rules ++ [errRule] }
   let g := s.toGrammar
   let c := checkGrammar g raw.strict
   if c ≠ 0 then throw c
